@@ -31,7 +31,7 @@ IGN = ["N", "-", "20", "3a200a", "41", "3d"]
 
 def configs(tier):
     if tier == "quick":
-        return [("native", "", "plain")]
+        return [("native", "", "plain"), ("native", "", "plain", {"HX_ALIGN": "3"})]
     return [("native", "", "plain"), ("portable", "", "plain"), ("native", "", "asan")]
 
 
